@@ -1,9 +1,8 @@
-\* P level (verdict: the trace must be consumed) + M level (StackOK: drift)
+\* one walk over the recording; verdict.ndjson lists unconsumable lines (P) and frame drift (M)
 CONSTANTS
   MaxArg = 3
   MaxNodes = 4
   defaultInitValue = defaultInitValue
 INIT TraceInit
 NEXT TraceNext
-INVARIANTS StackOK
 CHECK_DEADLOCK FALSE
